@@ -43,6 +43,10 @@ CLAIMED = {
             'every symbolic instant tau with tau+h < end(w1) (dense), h computed independently of rtamt'),
     'C17': ('6.C17', 'every supported operator x monitor kind runs on symbolic 1-, 2- and 4-sample data (with unused/undeclared variables, permuted inputs): every path must '
             'return normally; every unsupported construct x monitor kind must end in RTAMTException by the first evaluation, on the single data-independent path'),
+    'C18': ('6.C18', 'both sides of each law are two specifications run by the same monitor on the same symbolic trace (operands: extended-real variables and compound '
+            'formulas); z3 shows equal outputs for all values, for every monitor kind that supports both sides'),
+    'C19': ('6.C19', 'grid-aligned step signals with symbolic values are fed to the dense-time and the discrete-time monitor; z3 shows the dense output at k*P equals the '
+            'discrete output at sample k (and the README semantics) for all values, for every k whose future windows end inside the trace'),
 }
 NA = {
     'C14': 'the quantifier ranges over strings and every string is consumed by the ANTLR4 ATN interpreter, which cannot be encoded or '
